@@ -185,22 +185,33 @@ def run(ctx):
     with ctx.rule("C08.SORT", "sort or a single file ⇒ one thread; parallel dispatch only when threads ≠ 1", floor=6, exhaustive=True,
                   kind="TRUTH/GUARD") as r:
         f = facts.fn(HI + "::from_low_args")
-        lets = {}
-        for x in H.walk(f.hir):
-            if isinstance(x, dict) and x.get("k") == "let" and x.get("pat", {}).get("k") == "bind":
-                lets.setdefault(x["pat"]["name"], x.get("init"))
-        th = lets.get("threads")
-        if th is None or H.strip(th).get("k") != "if":
-            r.bad("threads", "anchor-missing: `let threads = if ..` in from_low_args", fn=f)
+        # the value stored in HiArgs::threads, as a table on the MIR: rows (low.sort ∈ {Some, None}, paths.is_one_file ∈ {0,1}),
+        # low.threads = Some(7). However the choice is spelled (if/else chain, a helper, a match) the stored value is 1 under
+        # sort / a single file, and the request otherwise.
+        from ..flow import table, operand_at
+        LOW_ = "rg::flags::lowargs::LowArgs"
+        PATHS_ = "rg::flags::hiargs::Paths"
+        agg = [(bb, st_) for bb, j_, st_ in f.stmts() if st_["k"] == "assign" and st_["rv"]["k"] == "agg" and st_["rv"].get("adt") == HI
+               and "threads" in st_["rv"].get("fields", [])]
+        if len(agg) != 1:
+            r.bad("threads", "anchor-missing: the HiArgs literal of from_low_args", fn=f)
         else:
-            cond = H.strip(th)["c"]
-            atoms = ["low.sort.is_some()", "paths.is_one_file"]
-            ok, detail = H.equivalent(cond, atoms, lambda v: v[atoms[0]] or v[atoms[1]])
-            leaf = H.canon(H.strip(th)["t"])
-            if ok and leaf in ("{..1}", "1"):
-                r.ok("threads", "threads = 1 ⇐ sort.is_some() ∨ is_one_file (%s)" % detail, fn=f)
+            bb0, st0 = agg[0]
+            op_ = st0["rv"]["ops"][st0["rv"]["fields"].index("threads")]
+            wrong = []
+            for row, sx in table(facts, f, fields={(LOW_, "sort"): [V("Some", None), V("None", None)], (PATHS_, "is_one_file"): [I(0), I(1)],
+                                                   (LOW_, "threads"): [V("Some", I(7))]}):
+                so = row[("field", (LOW_, "sort"))][1] == "Some"
+                one = row[("field", (PATHS_, "is_one_file"))][1] == 1
+                val = operand_at(sx, bb0, st0, op_)
+                want = I(1) if (so or one) else I(7)
+                if val != want:
+                    wrong.append("sort=%s one_file=%s ⇒ threads = %s" % (so, one, val))
+            if wrong:
+                r.bad("threads", "thread count under sort / single file: %s (specified: 1 under --sort or a single file, the request "
+                      "otherwise)" % "; ".join(wrong), fn=f, construct="threads")
             else:
-                r.bad("threads", "thread count under sort / single file: %s → %s" % (detail, leaf), fn=f, construct="threads")
+                r.ok("threads", "threads = 1 ⇐ sort.is_some() ∨ is_one_file; the requested count otherwise (4 rows)", fn=f)
         run = facts.fn("rg::run")
         ebr = ExprBuilder(run)
         t1 = cond_switches(run, lambda e: e.k == "bin" and e[1] == "Eq" and mentions_call(e, HI + "::threads")
